@@ -312,7 +312,7 @@ func main() {
 		Level: "model_checking",
 		Rule: "configurations = all assignments of operation sequences over {Add(a), Add(b), Get(a), GetName(0), GetName(1)} to 2 threads x 2 ops and 3 threads x 1 op (thorough: 2x3 and 3 threads 2+1+1) on a fresh real SymbolTable; for each configuration (1) ALL interleavings of the RWMutex operations are explored (unbounded DFS with happens-before state caching, scheduling points before every lock operation and after every release) and (2) with an additional scheduling point before every statement of symbol_table.go, every schedule with at most 2 (thorough 3) preemptions; " +
 			"oracle: brute-force linearizability of the call/return history against a sequential map + final bijection observed through Get/GetName; non-trivial = configurations whose executions produced more than one distinct history",
-		Assume: []string{"scheduling points only at sync operations: unsynchronised accesses are invisible to the explorer (the free-running -race pass of bin/racepass covers them)", "happens-before state caching assumes the table's state is only accessed under its lock"},
+		Assume: []string{"scheduling points at sync operations and statements: accesses racing below statement granularity are invisible to the explorer; the supplementary free-running pass under Go's race detector (case racepass/symtab: 310 configurations x 20 (thorough 300) rounds on real goroutines) reports them", "happens-before state caching assumes the table's state is only accessed under its lock"},
 		CaseTimeout: 20 * time.Minute,
 		Run: func(c *engine.Ctx) {
 			cs := configs(c.Thorough)
@@ -323,6 +323,15 @@ func main() {
 			if c.Thorough {
 				block = 2 // statement-level pass with bound 3 is ~100x the quick work per configuration
 			}
+			// free-running companion pass under Go's race detector (same alphabet and configuration shapes, real
+			// goroutines): catches accesses that no scheduling point separates; see engine.RacePass
+			c.Case("racepass/symtab", func(r *engine.R) {
+				rounds := "20"
+				if c.Thorough {
+					rounds = "300"
+				}
+				engine.RacePass(r, "symbol table", 10*time.Minute, "symtab", rounds)
+			})
 			for lo := 0; lo < len(cs); lo += block {
 				hi := min(lo+block, len(cs))
 				part := cs[lo:hi]
